@@ -110,7 +110,8 @@ def decodeDocument (j : Json) : Except String Document := do
         let dv ← match optField v "defaultValue" with
           | some x => do pure (some (← decodeValue x))
           | none => pure none
-        pure (⟨← nameOf var, ← decodeAstType (← v.getObjVal? "type"), dv, decodeLoc v⟩ : VarDef)
+        let dloc := match optField v "defaultValue" with | some x => decodeLoc x | none => ⟨0, 0⟩
+        pure (⟨← nameOf var, ← decodeAstType (← v.getObjVal? "type"), dv, decodeLoc v, dloc⟩ : VarDef)
       ops := ops ++ [⟨ok, name, vds, ← decodeDirectives d, ← decodeSelections d⟩]
     else if kind == "FragmentDefinition" then
       let tc ← nameOf (← d.getObjVal? "typeCondition")
